@@ -1,0 +1,54 @@
+//go:build verif
+
+// Contracts for package collector: the match handler of the top-N collector (read by /verif/gocv;
+// comment-only effect with the verif tag off).
+//
+// C06: the closure returned by MakeTopNDocumentMatchHandler offers every match to the bounded
+// store, which is asked to keep size+skip matches, and remembers the best match already dropped
+// (lowestMatchOutsideResults) to reject later matches without touching the store. Invariant: the
+// store holds at most size+skip matches; once a match has been dropped the store is full, the
+// remembered match is outside the store and not better than anything kept.
+
+package collector
+
+//@ spec topnShape(ctx *search.SearchContext, hc *TopNCollector) bool = hc != nil && ctx != nil && ctx.DocumentMatchPool != nil && hc.store != nil && storeOK(hc.store) && hc.cmp != nil && hc.cmp == storeCmp(hc.store) && \
+//@     hc.size >= 0 && hc.skip >= 0 && hc.size + hc.skip < 4611686018427387904 && storeLen(hc.store) <= hc.size + hc.skip && \
+//@     base(storeElems(hc.store)) > 0 && base(ctx.DocumentMatchPool.avail) != base(storeElems(hc.store)) && \
+//@     implies(hc.searchAfter != nil, !storeHas(hc.store, hc.searchAfter)) && \
+//@     implies(hc.lowestMatchOutsideResults != nil, !storeHas(hc.store, hc.lowestMatchOutsideResults) && storeLen(hc.store) == hc.size + hc.skip)
+//@ spec topnLow(hc *TopNCollector) bool = implies(hc.lowestMatchOutsideResults != nil, all(x, *search.DocumentMatch, implies(storeHas(hc.store, x), hc.cmp(x, hc.lowestMatchOutsideResults) <= 0)))
+//@ spec topnInv(ctx *search.SearchContext, hc *TopNCollector) bool = topnShape(ctx, hc) && topnLow(hc)
+// the offered match is filtered by search-after
+//@ spec topnFiltered(hc *TopNCollector, d *search.DocumentMatch) bool = hc.searchAfter != nil && hc.cmp(d, hc.searchAfter) <= 0
+
+//@ func MakeTopNDocumentMatchHandler$lit0
+//@   props C06
+//@   mode int
+//@   requires topnInv(ctx, hc) && implies(d != nil, !storeHas(hc.store, d) && d != hc.lowestMatchOutsideResults && d != hc.searchAfter)
+//@   modifies hc.lowestMatchOutsideResults, fields(search.DocumentMatch), search.DocumentMatchPool.avail, mem(*search.DocumentMatch), collectStoreSlice.slice, collectStoreHeap.heap
+// a match that is in the store or remembered is never handed back to the pool
+//@   at call ctx.DocumentMatchPool.Put#0: assert !storeHas(hc.store, d) && d != hc.lowestMatchOutsideResults
+//@   at call ctx.DocumentMatchPool.Put#1: assert !storeHas(hc.store, d) && d != hc.lowestMatchOutsideResults
+//@   at call ctx.DocumentMatchPool.Put#2: assert !storeHas(hc.store, tmp) && tmp != hc.lowestMatchOutsideResults
+// the store is asked to keep exactly size+skip matches
+//@   at call hc.store.AddNotExceedingSize#0: assert arg1 == hc.size + hc.skip
+//@   ensures result == nil && hc.store == old(hc.store) && hc.cmp == old(hc.cmp) && hc.searchAfter == old(hc.searchAfter)
+// an unfiltered match makes the store grow until it holds size+skip matches
+//@   ensures implies(d != nil && !topnFiltered(hc, d), storeLen(hc.store) == ite(old(storeLen(hc.store)) < hc.size + hc.skip, old(storeLen(hc.store)) + 1, hc.size + hc.skip))
+//@   ensures implies(d == nil || topnFiltered(hc, d), storeLen(hc.store) == old(storeLen(hc.store)) && hc.lowestMatchOutsideResults == old(hc.lowestMatchOutsideResults))
+// the remembered match only improves
+//@   ensures implies(old(hc.lowestMatchOutsideResults) != nil, hc.lowestMatchOutsideResults != nil && hc.cmp(hc.lowestMatchOutsideResults, old(hc.lowestMatchOutsideResults)) <= 0)
+// the invariant is preserved (stated conjunct by conjunct, so that a failure names the part that broke)
+//@   ensures storeOK(hc.store) && hc.cmp == storeCmp(hc.store)
+//@   ensures storeLen(hc.store) <= hc.size + hc.skip
+//@   ensures base(storeElems(hc.store)) > 0 && base(ctx.DocumentMatchPool.avail) != base(storeElems(hc.store))
+//@   ensures implies(hc.searchAfter != nil, !storeHas(hc.store, hc.searchAfter))
+//@   ensures implies(hc.lowestMatchOutsideResults != nil, !storeHas(hc.store, hc.lowestMatchOutsideResults))
+//@   ensures implies(hc.lowestMatchOutsideResults != nil, storeLen(hc.store) == hc.size + hc.skip)
+//@   ensures topnLow(hc)
+// nothing enters the store but the offered match; whatever leaves the store, and the offered match
+// when it is neither kept nor filtered by search-after, is not better than the remembered match -
+// which (topnLow) is not better than anything kept: the store holds the best size+skip matches seen
+//@   ensures all(x, *search.DocumentMatch, implies(storeHas(hc.store, x), old(storeHas(hc.store, x)) || x == d))
+//@   ensures all(x, *search.DocumentMatch, implies(old(storeHas(hc.store, x)) && !storeHas(hc.store, x), hc.lowestMatchOutsideResults != nil && hc.cmp(hc.lowestMatchOutsideResults, x) <= 0))
+//@   ensures implies(d != nil && !storeHas(hc.store, d) && !topnFiltered(hc, d), hc.lowestMatchOutsideResults != nil && hc.cmp(hc.lowestMatchOutsideResults, d) <= 0)
